@@ -242,7 +242,7 @@ class Graph:
                     if not foreign:
                         src.relabel = lambda subst, p=p, sp=sp: self.label(p, sp, subst=subst)
                     src.discharged = guarded_arith(self.facts, p, sp, kind) or enumerate_index(self.facts, p, sp, kind) or \
-                        bounded_operands(self.facts, p, sp, kind) or \
+                        bounded_operands(self.facts, p, sp, kind) or bounded_index(self.facts, p, sp, kind) or \
                         (consumed_prefix(self.facts, p, sp, 'sub') if kind == 'Overflow(Sub)' else None)
                     out.append(src)
                 elif t['k'] in ('Call', 'TailCall'):
@@ -649,6 +649,30 @@ def bounded_operands(facts, body_path, src_sp, kind):
     l, r = upper_bound(facts, B, n['l']), upper_bound(facts, B, n['r'])
     if l is not None and r is not None and l + r <= INT_MAX[ty]:
         return 'operands bounded by construction: at most %d + %d, within %s' % (l, r, ty)
+    return None
+
+def bounded_index(facts, body_path, src_sp, kind):
+    """D8: a BoundsCheck assert on `a[i]` where `a` is an array whose length N is part of its type (`[T; N]`, a constant table)
+    is discharged when the index is bounded by construction below N (see upper_bound): a u8 shifted right by k has at most
+    2^(8-k) values (`TABLE[(octet >> 5) as usize]` with N = 8), `x & m` is at most m, `x % N` is below N.  As in D7 nothing is read
+    off a guard: the bound is a property of the index expression's form and the length a property of the array's type, both
+    re-read on every run - a table that loses a row, or a shift that becomes smaller, turns the source into a violation."""
+    rec = hir_owner(facts, body_path)
+    if rec is None or kind.split('(')[0] != 'BoundsCheck':
+        return None
+    B = _hirq.Body(facts, rec)
+    cands = [n for n in B.nodes if n['k'] == 'Index' and n.get('sp') and
+             (list(n['sp'][:5]) == list(src_sp[:5]) or (n['sp'][0] == src_sp[0] and n['sp'][3:5] == src_sp[3:5]))]
+    if len(cands) != 1:
+        return None
+    ix = cands[0]
+    m = re.match(r'^\[.+; (\d+)\]$', _hirq.strip_refs(ix['e'].get('ty') or ''))
+    if not m:
+        return None
+    n = int(m.group(1))
+    ub = upper_bound(facts, B, ix['idx'])
+    if ub is not None and ub < n:
+        return 'index bounded by construction: at most %d, the array has %d elements by its type' % (ub, n)
     return None
 
 def enumerate_index(facts, body_path, src_sp, kind):
